@@ -50,11 +50,25 @@ SPECS = {
 
     # ---- recursive descent ----
     'parse_where': dict(ret='r', attrs=[NODEC], ensures=FRAME),
-    'parse_expr': parse_fn(loops={0: dict(invariant=LOOPINV + ['left is Some'])}),
-    'parse_and': parse_fn(loops={0: dict(invariant=LOOPINV + ['left is Some'])}),
+    # one-step tree construction (C03 / C15): the node built for `X OP Y` carries exactly the operator just read,
+    # the tree so far as left child and the newly parsed operand as right child (left-associative chain)
+    'parse_expr': parse_fn(loops={0: dict(invariant=LOOPINV + ['left is Some'])},
+                           proofs={r'right\s*=\s*match\s+right\s*\{': 'let ghost verif_r = right; let ghost verif_e = expr;'},
+                           proofs_after={r'right\s*=\s*match\s+right\s*\{':
+                                         'proof { assert(/*C03.tree.or*/ right == (if verif_r is Some { Some(spec_logical_node(verif_r->Some_0, LogicalOp::Or, verif_e->Some_0)) } else { verif_e })); }'}),
+    'parse_and': parse_fn(loops={0: dict(invariant=LOOPINV + ['left is Some'])},
+                          proofs={r'right\s*=\s*match\s+right\s*\{': 'let ghost verif_r = right; let ghost verif_e = expr;'},
+                          proofs_after={r'right\s*=\s*match\s+right\s*\{':
+                                        'proof { assert(/*C03.tree.and*/ right == (if verif_r is Some { Some(spec_logical_node(verif_r->Some_0, LogicalOp::And, verif_e->Some_0)) } else { verif_e })); }'}),
     'parse_cond': parse_fn(loops={0: dict(invariant=LOOPINV)}),
-    'parse_add_sub': parse_fn(loops={0: dict(invariant=LOOPINV + ['left is Some'])}),
-    'parse_mul_div': parse_fn(loops={0: dict(invariant=LOOPINV + ['left is Some'])}),
+    'parse_add_sub': parse_fn(loops={0: dict(invariant=LOOPINV + ['left is Some'])},
+                              proofs={r'left\s*=\s*match\s+left\s*\{': 'let ghost verif_l = left; let ghost verif_e = expr; let ghost verif_o = new_op;'},
+                              proofs_after={r'left\s*=\s*match\s+left\s*\{':
+                                            'proof { assert(/*C15.tree.addsub*/ verif_o is Some && (verif_o->Some_0 == ArithmeticOp::Add || verif_o->Some_0 == ArithmeticOp::Subtract) && left == (if verif_l is Some { Some(spec_arith_node(verif_l->Some_0, verif_o->Some_0, verif_e->Some_0)) } else { verif_e })); }'}),
+    'parse_mul_div': parse_fn(loops={0: dict(invariant=LOOPINV + ['left is Some'])},
+                              proofs={r'left\s*=\s*match\s+left\s*\{': 'let ghost verif_l = left; let ghost verif_e = expr; let ghost verif_o = new_op;'},
+                              proofs_after={r'left\s*=\s*match\s+left\s*\{':
+                                            'proof { assert(/*C15.tree.muldiv*/ verif_o is Some && (verif_o->Some_0 == ArithmeticOp::Multiply || verif_o->Some_0 == ArithmeticOp::Divide || verif_o->Some_0 == ArithmeticOp::Modulo) && left == (if verif_l is Some { Some(spec_arith_node(verif_l->Some_0, verif_o->Some_0, verif_e->Some_0)) } else { verif_e })); }'}),
     'parse_paren': parse_fn(),
     'parse_func_scalar': parse_fn(proofs={r'let\s+mut\s+lexem\s*=\s*self\.next_lexem\(\);': 'proof { broadcast use axiom_to_string_of_string; }'}, extra_ens=[
         # C02.quoted.literal: a quoted token is always text
@@ -83,6 +97,15 @@ SPECS = {
 }
 
 EXTRA = '''
+pub open spec fn spec_arith_node(l: Expr, op: ArithmeticOp, r: Expr) -> Expr {
+    Expr { left: Some(Box::new(l)), arithmetic_op: Some(op), logical_op: None, op: None, right: Some(Box::new(r)), minus: false,
+           field: None, function: None, args: None, val: None }
+}
+pub open spec fn spec_logical_node(l: Expr, op: LogicalOp, r: Expr) -> Expr {
+    Expr { left: Some(Box::new(l)), arithmetic_op: None, logical_op: Some(op), op: None, right: Some(Box::new(r)), minus: false,
+           field: None, function: None, args: None, val: None }
+}
+
 spec fn lexem_at(p: Parser, k: int) -> Option<Lexem> {
     if 0 <= p.index + k < p.lexems.len() { Some(p.lexems[p.index + k]) } else { None }
 }
